@@ -217,6 +217,11 @@ var c11Ops = []c11Op{
 	// request could be sent to: refused like an unparsable one, nothing changes
 	{Kind: "add", Name: "e", Addr: "e1.test:80", Weight: 1},
 	{Kind: "add", Name: "f", Addr: "ftp://f1.test:80", Weight: 1},
+	// a known strategy name in another spelling (letter case, blanks): either it is an unknown
+	// name (400, nothing changes) or it is that strategy - never a third thing
+	{Kind: "set", Strategy: " ip_hash"},
+	{Kind: "set", Strategy: "Least_Connections"},
+	{Kind: "set", Strategy: "IP_HASH_CONSISTENT "},
 }
 
 type c11Inst struct {
@@ -262,6 +267,10 @@ func (in *c11Inst) Step(ev int) *vh.HViol {
 		}
 		return nil
 	default:
+		if canon := strings.ToLower(strings.TrimSpace(o.Strategy)); o.Kind == "set" && !c11Strategies[o.Strategy] && c11Strategies[canon] && got == "200" {
+			// accepted as a spelling of a known name: then that strategy is what runs now
+			in.m.Strategy, want = canon, "200"
+		}
 		if want != got {
 			kind := o.Kind
 			if o.Kind == "list" {
